@@ -198,6 +198,23 @@ def check_full_flush(rep, mod, K):
             'so that the output of a following call cannot be appended', key='R-FULLFLUSH-HIST|c', sample='isal_deflate_stateless: end_of_stream = 1 only under NO_FLUSH')
 
 
+def check_mask_width(rep, mod):
+    """clearing BFINAL in a 64-bit word of header bits with a 32-bit complement mask wipes the upper half of the word"""
+    R = rep.rule('L-MASK-WIDTH', 'no 64-bit value anywhere in the library is AND-ed with a constant in [2^31, 2^32): such a constant is a complement mask computed in 32 bits and zero-extended (x &= ~1u on a uint64_t), '
+                 'which clears bits 32..63 together with the intended bit - e.g. bytes 4..7 of the dynamic header held in header_bits when BFINAL is cleared', floor=1, unit='library scans')
+    R.instance()
+    if not irrules.is_narrow_mask_const(0xfffffffe) or irrules.is_narrow_mask_const(0xfffffffffffffffe):
+        raise AnalysisBroken('L-MASK-WIDTH self-test failed')
+    n64 = sum(1 for f in mod.funcs.values() for i in f.all_insns() if i.op == 'and' and (i.ty or '') == 'i64')
+    if n64 < 25:
+        raise AnalysisBroken('L-MASK-WIDTH: only %d 64-bit AND instructions seen' % n64)
+    hits = irrules.narrow_masks(mod)
+    for f, i, c in hits:
+        R.fail(mod.where(f, i), '%s: 64-bit value AND-ed with %#x: the upper 32 bits are cleared as well (a complement mask taken in 32 bits)' % (f.name, c), key='L-MASK-WIDTH|%s|%d' % (f.name, i.line or 0))
+    if not hits:
+        R.ok(sample='%d 64-bit AND instructions, none with a zero-extended 32-bit complement mask' % n64)
+
+
 def main(tier):
     rep = Report('C14', tier, level='other')
     rep.undecided = UNDECIDED
@@ -211,4 +228,5 @@ def main(tier):
         raise AnalysisBroken('constants missing: %s' % drop)
     check_marker(rep, mod, K)
     check_full_flush(rep, mod, K)
+    check_mask_width(rep, mod)
     return rep.finish()
